@@ -281,6 +281,19 @@ def _t_ctx(src, pre, post, pn):
     return "{% assign w = " + _e(src, pre + post) + ' %}{{ "%(v)s" | pgettext: w, v: w }}', {}
 
 
+def _gettext_var(src, pre, post, pn):
+    return "{% assign w = " + _e(src, pre + post) + ' %}{{ "a %(v)s" | gettext: v: w }}', {}
+
+
+def _npgettext_var(src, pre, post, pn):
+    return "{% assign w = " + _e(src, pre + post) + ' %}{{ "a %(v)s" | npgettext: "c", "b %(v)s", 2, v: w }}', {}
+
+
+def _t_count(src, pre, post, pn):
+    return ("{% assign w = " + _e(src, pre + post)
+            + ' %}{{ "a %(v)s" | t: "c", plural: "b %(v)s %(count)s", count: 2, v: w }}'), {}
+
+
 def _super(src, pre, post, pn):
     base = "b" + pn
     return ('{% extends "' + base + '" %}{% block b %}a{{ ' + _e("block.super", post) + " }}b{% endblock %}",
@@ -342,6 +355,9 @@ SINKS: list[Sink] = [
     Sink("t_var", True, _t_var, family="t"),
     Sink("t_plural", False, _t_plural, family="t"),
     Sink("t_ctx", False, _t_ctx, family="t"),
+    Sink("gettext_var", False, _gettext_var, family="t"),
+    Sink("npgettext_var", False, _npgettext_var, family="t"),
+    Sink("t_count", False, _t_count, family="t"),
     Sink("super", True, _super),
     Sink("block_plain", False, _block_plain, family="super"),
     Sink("default_data", False, _default_data),
@@ -353,6 +369,7 @@ SINK: dict[str, Sink] = {s.name: s for s in SINKS}
 # sinks through which an unfiltered value must pass unchanged (clause 2)
 PASS_SINKS = [s.name for s in SINKS if s.name not in ("for_split", "index")]
 CORE3 = ["out", "capture"]  # sinks for chains of 3 (quick)
+T_SINKS = ["t_var", "t_plural", "t_ctx", "gettext_var", "npgettext_var", "t_count"]
 HIST_SEL = {"out": None, "capture": None, "assign": [1], "for_over": None, "cycle": None, "translate_kw": None}
 STRUCT_SINKS = ["out", "assign", "capture", "for_over", "render_for", "include_with", "cycle"]
 STRUCT_SINKS2 = {"out": None, "capture": [1], "for_over": None, "render_for": None}
@@ -495,6 +512,10 @@ def layer_units(layer: str, tier: str) -> Iterator[tuple[str, tuple, Optional[li
                 yield (src, (), [name])
         for name in ("out", "for_over", "render_for", "assign", "capture"):
             yield ("xs", (), [name])
+    elif layer == "manual_t":  # translation filters registered by hand (docs/optional_filters.md), message variables from data
+        for n in (0, 1):
+            for ch in chains(INSTANCES, n):
+                yield ("x", ch, T_SINKS)
     elif layer == "history":  # two / three renders of one template on one environment: safe value, then the equal plain string
         for name in PASS_SINKS:
             yield ("x", (), [name])
@@ -510,4 +531,4 @@ def layer_specs(layer: str, tier: str) -> Iterator[dict]:
 
 
 AE_4 = AE_BRANCH + [("url_decode", ""), ("base64_decode", ""), ("append", '"a"'), ("slice", "0, 3")]
-LAYERS = ["chain2", "chain3", "chain3all", "chain4", "data2", "data3", "struct", "safe", "history"]
+LAYERS = ["chain2", "chain3", "chain3all", "chain4", "data2", "data3", "struct", "safe", "history", "manual_t"]
